@@ -40,8 +40,15 @@ static void op_c08_sweep(Exec& x, const Json& op, int)
 	unsigned pre_idx = x.sb.cmd_index;
 	auto reset = [&]() { x.sb.restore_all(pre); x.sb.now_s = pre_now; x.sb.cmd_index = pre_idx; };
 
+	// "dirty": files were changed since the last sync, so the fault-free scrub already ends with file errors; an I/O error in
+	// one of those stripes is still an I/O error (judged: status, diagnostic, counter, bad mark; not the repair path)
+	bool dirty = is_scrub && op.num("dirty") != 0;
+	bool saved_ref = x.check_parity_every_cmd;
+	if (dirty) x.check_parity_every_cmd = false;
 	CmdResult ref = x.cmd(spec);
-	if (ref.exit_code != 0) { x.probe("c08.reference_failed"); reset(); return; }
+	x.check_parity_every_cmd = saved_ref;
+	if (ref.exit_code != 0 && !(dirty && ref.exit_code < 90 && !ref.term_sig)) { x.probe("c08.reference_failed"); reset(); return; }
+	if (dirty && ref.exit_code != 0) x.probe("c08.scrub_over_changed_files");
 	std::vector<LoadedContent> refc = load_contents(x.sb);
 	const LoadedContent* rc = first_good(refc);
 	if (!rc) { x.harness("c08: no content after reference"); return; }
@@ -250,7 +257,7 @@ static void op_c08_sweep(Exec& x, const Json& op, int)
 		}
 
 		// 4. repair path: fix -e, scrub -p bad, sync => clean
-		{
+		if (!dirty) {
 			CmdSpec fx;
 			fx.cmd = "fix";
 			fx.opts = { "-e" };
@@ -288,7 +295,9 @@ static void op_c08_sweep(Exec& x, const Json& op, int)
 		}
 	}
 	reset();
+	if (dirty) x.check_parity_every_cmd = false;
 	x.cmd(spec);
+	x.check_parity_every_cmd = saved_ref;
 	x.out.nontrivial = x.out.nontrivial_cases > 0;
 	Json smp = Json::obj();
 	std::string c = spec.cmd;
@@ -317,9 +326,12 @@ static RunPlan gen_ioerr(uint64_t seed, int tier)
 		p.ops.push_back(b);
 	}
 	CmdSpec s;
+	bool dirty = false;
 	if (scrub) {
 		s.cmd = "scrub";
 		s.opts = { "-p", "full" };
+		// sometimes files changed since the sync: the stripe that gets the I/O error may also hold one of them
+		if (rng.chance(1, 2)) { dirty = true; for (auto& o : gen_mutations(rng, p.cfg, (int)rng.range(1, 4))) p.ops.push_back(o); }
 	} else {
 		for (auto& o : gen_mutations(rng, p.cfg, (int)rng.range(1, 5))) p.ops.push_back(o);
 		s.cmd = "sync";
@@ -328,7 +340,7 @@ static RunPlan gen_ioerr(uint64_t seed, int tier)
 		if (rng.chance(1, 6)) s.opts.push_back("-h");
 	}
 	s = gen_sched(rng, s);
-	p.ops.push_back(Json::obj().set("k", "c08_sweep").set("spec", s.to_json()).set("seed", rng.next() >> 1).set("limit", tier ? 0 : 8));
+	p.ops.push_back(Json::obj().set("k", "c08_sweep").set("spec", s.to_json()).set("seed", rng.next() >> 1).set("limit", tier ? 0 : 8).set("dirty", dirty ? 1 : 0));
 	return p;
 }
 
